@@ -166,7 +166,7 @@ def Helper.defKLines (h : Helper) : List (LK × String) :=
   [(.open_, h.sig ++ " {")] ++ (h.body.fklines h.ls []).1 ++ h.retLines.map (fun l => (LK.flat, l)) ++ [(.close, "}")]
 
 def helperKLines (hs : List Helper) : List (LK × String) :=
-  hs.map (fun h => (LK.flat, h.sig ++ ";")) ++ hs.flatMap Helper.defKLines
+  (if 1 < hs.length then hs.map (fun h => (LK.flat, h.sig ++ ";")) else []) ++ hs.flatMap Helper.defKLines
 
 inductive Sec where | incl | glob | setupOpen | loopOpen | body
   deriving DecidableEq, Repr
